@@ -130,11 +130,27 @@ pub fn set_src(db: &mut RootDatabase, name: &str, content: &str) -> CrateInput {
 
 /// Like `set_src`, for a crate that depends on other in-memory crates (by name) and optionally has a cache blob.
 pub fn set_src_deps(db: &mut RootDatabase, name: &str, content: &str, deps: &[&str], cache: Option<Vec<u8>>) -> CrateInput {
-    use cairo_lang_filesystem::db::{CrateSettings, DependencySettings};
+    set_src_deps_opts(db, name, content, deps, cache, CrateOpts::default())
+}
+
+/// Crate settings beyond the defaults: edition (index into the list of editions) and experimental features.
+#[derive(Clone, Copy, Default, Debug, PartialEq, Eq)]
+pub struct CrateOpts {
+    /// 0: 2023_01 (default), 1: 2023_10, 2: 2023_11, 3: 2024_07, 4: 2025_12
+    pub edition: u8,
+    pub experimental: bool,
+}
+
+pub fn set_src_deps_opts(db: &mut RootDatabase, name: &str, content: &str, deps: &[&str], cache: Option<Vec<u8>>, opts: CrateOpts) -> CrateInput {
+    use cairo_lang_filesystem::db::{CrateSettings, DependencySettings, Edition, ExperimentalFeaturesConfig};
     let root = PathBuf::from(format!("/verif_virtual/{name}"));
     let db_mut: &mut dyn Database = db;
     let crate_id = CrateId::plain(db_mut, SmolStrId::from(db_mut, name));
     let mut settings = CrateSettings::default();
+    settings.edition = [Edition::V2023_01, Edition::V2023_10, Edition::V2023_11, Edition::V2024_07, Edition::V2025_12][opts.edition as usize];
+    if opts.experimental {
+        settings.experimental_features = ExperimentalFeaturesConfig { negative_impls: true, associated_item_constraints: true, coupons: true, user_defined_inline_macros: true, repr_ptrs: true };
+    }
     for d in deps {
         settings.dependencies.insert(d.to_string(), DependencySettings { discriminator: None });
     }
